@@ -236,7 +236,7 @@ class VPLSBase(NLRI):
             raise Notify(3, 10, 'l2vpn vpls message length is not consistent with encoded bgp')
 
         # only what the accessors read is kept, so what is packed back is what was understood
-        packed = bytes(data[0:2]) + bytes(data[2 : 2 + VPLS_PAYLOAD_SIZE])
+        packed = pack('!H', VPLS_PAYLOAD_SIZE) + bytes(data[2 : 2 + VPLS_PAYLOAD_SIZE])
         nlri = cls(packed)
         return nlri, data[2 + length :]
 
